@@ -63,6 +63,21 @@ def discoverEvents (n : Nat) (dup : Bool) : List DEv :=
   ++ (List.range n).flatMap (fun i => [DEv.resp ⟨10 + i, i, i⟩, DEv.resp ⟨1000 + i, i, 500 + i⟩])
   ++ (List.range n).map (fun i => DEv.finish i)
 
+/-- `discover n failsend`: every token is first used by a call whose send fails (it registers, fails, and its deferred
+    clean-up runs when it returns), then by the real discovery -/
+def discoverFailEvents (n : Nat) : List DEv :=
+  (List.range n).flatMap (fun i => [DEv.start (200 + i) (10 + i), DEv.finish (200 + i)])
+  ++ discoverEvents n false
+
+def discoverFailModel (n : Nat) : String :=
+  let outs := dtrace [] (discoverFailEvents n)
+  let okc := outs.countP (fun o => match o with | .toReceiverOf id conn tag => id == conn && tag == conn && id < 100 | _ => false)
+  let badc := outs.countP (fun o => match o with | .toReceiverOf id conn tag => !(id == conn && tag == conn && id < 100) | _ => false)
+  let dflt := outs.countP (fun o => match o with | .toDefault _ _ => true | _ => false)
+  let refused := outs.countP (fun o => o == .refused)
+  if refused != 0 then s!"receiver ok {okc}/{n} bad {badc} default {dflt} failedsend {n}/{n} model-refused {refused}"
+  else s!"receiver ok {okc}/{n} bad {badc} default {dflt} failedsend {n}/{n}"
+
 def discoverModel (n : Nat) (dup : Bool) : String :=
   let outs := dtrace [] (discoverEvents n dup)
   let okc := outs.countP (fun o => match o with | .toReceiverOf id conn tag => id == conn && tag == conn && id < 100 | _ => false)
@@ -124,6 +139,7 @@ def handle (mode : String) (line : String) : String :=
       | "table" :: evs => tableModel evs
       | ["discover", n] => match n.toNat? with | some n => discoverModel n false | none => "bad-op"
       | ["discover", n, "dup"] => match n.toNat? with | some n => discoverModel n true | none => "bad-op"
+      | ["discover", n, "failsend"] => match n.toNat? with | some n => discoverFailModel n | none => "bad-op"
       | ws =>
       match keyeqModel ws with
       | some b => if b then "1" else "0"
@@ -153,6 +169,12 @@ def handle (mode : String) (line : String) : String :=
       | ["receiver", "ok", frac, "bad", b, "default", d] =>
         if frac == s!"{n}/{n}" && b == "0" && d == n then "ok"
         else s!"violates discovery routing: receiver got {frac}, {b} misrouted, {d} strays at the default handler (expected {n}/{n}, 0, {n})"
+      | _ => "violates unparsable-observation"
+    | ["discover", n, "failsend"] =>
+      match words obs with
+      | ["receiver", "ok", frac, "bad", b, "default", d, "failedsend", fs] =>
+        if frac == s!"{n}/{n}" && b == "0" && d == n && fs == s!"{n}/{n}" then "ok"
+        else s!"violates discovery routing after a failed send: receiver got {frac}, {b} misrouted (e.g. handed to the failed call), {d} strays at the default handler, {fs} sends failed (expected {n}/{n}, 0, {n}, {n}/{n}): a discovery whose send fails must leave no registration behind"
       | _ => "violates unparsable-observation"
     | ["discover", n, "dup"] =>
       match words obs with
